@@ -206,7 +206,10 @@ def test_cert():
     if _CERT is None:
         from mitmproxy import certs
 
-        with open(os.path.join(REPO, "test/mitmproxy/net/data/text_cert"), "rb") as f:
+        p = os.path.join(REPO, "test/mitmproxy/net/data/text_cert")
+        if not os.path.exists(p):  # scratch copies used for mutation runs hold the package only
+            p = "/repo/test/mitmproxy/net/data/text_cert"
+        with open(p, "rb") as f:
             _CERT = certs.Cert.from_pem(f.read())
     return _CERT
 
